@@ -378,7 +378,29 @@ def analyse(F, cls, f, ctx, full=True):
             want_cost += rho * sp.Symbol("ENERGY", real=True)
         if not (isinstance(s.ret, sp.Basic) and sym.is_zero(s.ret - want_cost)):
             V.fail("cost", "returns %s, expected %s (energy weight %s)" % (s.ret, want_cost, "positive" if rho_pos else "not positive"))
-    return V, len(sums)
+    # ---- the single-segment problem is a path of its own (no inner waypoints, possibly no spatial variable at all): the
+    # clauses that do not depend on the size - one spline update per evaluation, the composition of the returned cost -
+    # are replayed with N = 1, the sizes N = 1 does not determine (number of layout entries) left open
+    nsmall = 0
+    for pre in both:
+        for s in evalsum.evaluate_paths(F, cls, f, ctx["count_member"], preset=pre, small=1):
+            nsmall += 1
+            ups = [nt for nt in s.notes if nt[0] == "update"]
+            if len(ups) != 1:
+                V.fail("update-once", "with one segment spline.update is called %d times on the path %s" % (len(ups), {str(k): v for k, v in s.assign.items() if not str(k).startswith(fm + ".")}))
+            rho_pos = None
+            rho = sp.Symbol(ctx["rho_member"], real=True)
+            for k, v in s.assign.items():
+                if isinstance(k, sp.core.relational.Relational) and any(str(x) == ctx["rho_member"] for x in k.free_symbols):
+                    rho_pos = v if sp.simplify(k.subs(rho, 1)) == sp.true else (not v)
+            want_cost = sp.Symbol("COST_TIME", real=True) + sp.Symbol("COST_INTEGRAL", real=True)
+            if not ctx["void"]:
+                want_cost += sp.Symbol("COST_WP", real=True)
+            if rho_pos is True:
+                want_cost += rho * sp.Symbol("ENERGY", real=True)
+            if not (isinstance(s.ret, sp.Basic) and sym.is_zero(s.ret - want_cost)):
+                V.fail("cost", "with one segment and %s it returns %s, expected %s" % ({str(k): v for k, v in s.assign.items() if not str(k).startswith(fm + ".")}, s.ret, want_cost))
+    return V, len(sums) + nsmall
 
 
 def strip_gen(e):
